@@ -696,6 +696,8 @@ impl TranspositionTableAccess {
     }
 
     fn insert(&self, hash: Hash, entry: TranspositionEntry) {
+        #[cfg(weechess_verif)]
+        verif::before_insert(hash);
         let index = hash as usize % self.tables.len();
         self.tables[index].write().unwrap().insert(hash, entry);
     }
@@ -991,6 +993,26 @@ pub mod verif {
     pub(super) fn enter_worker(depth: usize, index: usize) -> WorkerGuard {
         let tag = 1_000_000 + (depth as u64) * 1000 + index as u64;
         WorkerGuard(WORKER_TAG.with(|t| t.replace(tag)))
+    }
+
+    static DELAY_KEY: AtomicU64 = AtomicU64::new(0);
+    static DELAY_MS: AtomicU64 = AtomicU64::new(0);
+
+    /// A one-race deterministic scheduler: while `ms > 0`, an insert under `key` performed by an
+    /// odd-numbered lazy-SMP worker first waits `ms` milliseconds (outside any lock).
+    pub fn set_insert_delay(key: u64, ms: u64) {
+        DELAY_KEY.store(key, Ordering::SeqCst);
+        DELAY_MS.store(ms, Ordering::SeqCst);
+    }
+
+    pub(super) fn before_insert(hash: Hash) {
+        let ms = DELAY_MS.load(Ordering::Relaxed);
+        if ms > 0 && hash == DELAY_KEY.load(Ordering::Relaxed) {
+            let tag = WORKER_TAG.with(|t| t.get());
+            if tag != 0 && tag % 2 == 1 {
+                std::thread::sleep(std::time::Duration::from_millis(ms));
+            }
+        }
     }
 
     fn log_id() -> u64 {
